@@ -188,13 +188,19 @@ def run(ctx, build):
     rng.shuffle(sizes)
     for ii, (u, v) in enumerate(sizes[:18 if ctx.quick() else 64]):
         img = np.array(rng.sample(range(1, 250), u * v) if u * v <= 249 else [rng.randrange(1, 250) for _ in range(u * v)], dtype=np.uint8).reshape(u, v)
-        kind = 'png' if ii % 2 == 0 else 'txt'
-        ipath = os.path.join(ctx.tmp, 'img_%d.%s' % (ii, kind))
+        # grey PNG, text, and the SAME picture stored single-band with a colour table that is not the identity grey ramp
+        # (palette PNG / GIF): what counts is the grey level each pixel shows, not the table index stored for it
+        kind = ('png', 'txt', 'palette_png', 'txt', 'png', 'palette_gif')[ii % 6]
+        ipath = os.path.join(ctx.tmp, 'img_%d.%s' % (ii, {'palette_png': 'png', 'palette_gif': 'gif'}.get(kind, kind)))
         if kind == 'png':
             Image.fromarray(img, mode='L').save(ipath)
+        elif kind.startswith('palette'):
+            pimg = Image.fromarray((255 - img.astype(np.int64)).astype(np.uint8), mode='P')
+            pimg.putpalette([c for i in range(256) for c in (255 - i, 255 - i, 255 - i)])
+            pimg.save(ipath)
         else:
             np.savetxt(ipath, img.astype(np.float64))
-        hist['images'][kind] += 1
+        hist['images'][kind] = hist['images'].get(kind, 0) + 1
         hist['images']['sizes']['%dx%d' % (u, v)] = 1
         for variant in ('plain', 'normalized', 'binned'):
             if variant == 'binned' and (u < 2 or v < 2 or kind == 'txt'):
@@ -284,6 +290,21 @@ def run(ctx, build):
                 tname = forced_types[ax]
             tnames.append(tname)
             dset.set_dimension(ax, sid.Dimension(dim_vals(ax, shape[ax]), name='ax%d' % ax, units='u%d' % ax, quantity='q%d' % ax, dimension_type=tname))
+        order = list(range(nd))          # the order in which the dataset presents its axes (insertion order of its axes table)
+        if nd >= 2 and ci % 3 == 1:
+            # an axis other than the last one is taken out and put back (public calls): the axes are then no longer held in index
+            # order.  The writer may list the dimensions in either order; every element must keep the value of every NAMED axis.
+            ax = ci % (nd - 1)
+            try:
+                dset.del_dimension(ax)
+                dset.set_dimension(ax, sid.Dimension(dim_vals(ax, shape[ax]), name='ax%d' % ax, units='u%d' % ax, quantity='q%d' % ax, dimension_type=tnames[ax]))
+                hist['labelled']['axis_replaced'] = hist['labelled'].get('axis_replaced', 0) + 1
+                order.remove(ax)
+                order.append(ax)
+                if hasattr(dset, '_axes') and list(dset._axes.keys()) != order:
+                    order = list(dset._axes.keys())
+            except AttributeError:
+                pass
         hist['labelled']['datasets'] += 1
         hist['labelled']['ndim'][str(nd)] = hist['labelled']['ndim'].get(str(nd), 0) + 1
         key = ''.join('P' if fl else 'S' for fl in flags)
@@ -331,14 +352,16 @@ def run(ctx, build):
                         seen.add(tuple(idx))
                 if len(seen) != arr.size:
                     bad = bad or 'elements missing or duplicated'
-                want_pos = [('ax%d' % ax) for ax in range(nd) if flags[ax]] or ['arb.']
-                want_spec = [('ax%d' % ax) for ax in range(nd) if not flags[ax]] or ['arb.']
-                if pl != want_pos or sl != want_spec:
+                want_pos = [('ax%d' % ax) for ax in order if flags[ax]] or ['arb.']
+                want_spec = [('ax%d' % ax) for ax in order if not flags[ax]] or ['arb.']
+                if sorted(pl) != sorted(want_pos) or sorted(sl) != sorted(want_spec):
                     bad = bad or 'dimensions %s / %s instead of %s / %s' % (pl, sl, want_pos, want_spec)
             if bad:
                 violate('write_sidpy_dataset', key, 'element_under_wrong_coordinates', '%s | %s' % (bad, desc), desc)
-            lid = lambda l: [int(x[2:]) if x.startswith('ax') else nd for x in l]
-            cases.append('(CSidpy %s %s %s %s %s %s %s %s %s)' % (clist(shape, cnat), clist([int(x) for x in arr.ravel()], cnat), clist(list(flags), cbool),
+            # the model is given the dataset as it presents itself: axes in the order of its axes table
+            lid = lambda l: [order.index(int(x[2:])) if x.startswith('ax') else nd for x in l]
+            cases.append('(CSidpy %s %s %s %s %s %s %s %s %s)' % (clist([shape[a] for a in order], cnat), clist([int(x) for x in arr.transpose(order).ravel()], cnat),
+                                                                    clist([flags[a] for a in order], cbool),
                                                                     cpair(cnat(data.shape[0]), cnat(data.shape[1])), clist([int(x) for x in data.ravel()], cnat),
                                                                     clist(lid(pl), cnat), clist([[int(x) for x in row] for row in pi], lambda r: clist(r, cnat)),
                                                                     clist(lid(sl), cnat), clist([[int(x) for x in row] for row in si], lambda r: clist(r, cnat))))
